@@ -28,6 +28,7 @@ def run(check: Check, repo: Repo, tier: str) -> None:
     S.skip_reports(check, repo)
     S.wrapper_pairing(check, repo, [('utilities.type_comparators', 'is_equal_type'), ('utilities.type_comparators', 'is_type_sub_type_of')])
     S.schema_errors_first(check, repo)
+    S.validation_cache(check, repo)
     from rules import kind_tables as KT
     kp = S.predicate_classes(repo)
     tc = "utilities.type_comparators"
